@@ -1,6 +1,6 @@
 (* Property C02 — every well-formed program transpiles to Python that compiles.
    Only statements, each closed by `exact`, each followed by Print Assumptions. *)
-From Coq Require Import List NArith ZArith Bool.
+From Coq Require Import List NArith ZArith Bool String Ascii.
 From Vy Require Import Model.Base Model.Lexer Model.Parser Model.Transpile Model.PyTree Model.PyShape
   Gen.Elements Gen.TemplateShapes Proofs.ParserFacts Proofs.C02Proofs Proofs.ParseInvariants
   Model.Provenance Model.Layout Proofs.LayoutTemplates Proofs.LayoutBlocks Proofs.LayoutProofs.
@@ -79,9 +79,10 @@ Print Assumptions C02_layout_total.
 (* TEXT = SHAPE for every structure (all constructors, unbounded nesting), every indentation,
    every state of the id counters and ANY dictionary function: the text `tr` emits, read by
    Layout at column 4*indent, is `shape s`.  Side conditions on the tree: token payloads are
-   what the lexer delivers (`tree_ok`: variable names are identifier characters, numbers are
-   number characters, no carriage return in a string after decompression) and no `if` with
-   zero branches (the parser never builds one, ParseInvariants.parse_ne) *)
+   what the lexer delivers for every source (`tree_ok` with the lenient `tok_ok false`: variable
+   names are identifier characters, numbers are number characters; string contents, and what
+   the dictionary makes of them, are arbitrary) and no `if` with zero branches (the parser
+   never builds one, ParseInvariants.parse_ne) *)
 Theorem C02_layout_tr : forall undict s indent c text c',
   tree_ok (QT undict) s -> ifs_nonempty s = true ->
   tr undict s indent c = TOk (text, c') -> layout_at (4 * indent) text = Some (PyShape.shape s).
@@ -95,40 +96,52 @@ Theorem C02_layout : forall undict l text,
 Proof. exact layout_program. Qed.
 Print Assumptions C02_layout.
 
-(* end to end, for ALL program texts and ANY dictionary function that introduces no carriage
-   return: what the transpiler emits is accepted by Coq's reading of Python's block structure
-   and context conditions.  `wconds` excludes the recorded defect class (early exit in a while
-   condition, C02_nonvacuous / C02_layout_examples show it is really rejected); the
-   carriage-return hypotheses date from before the transpiler escaped it (a raw CR in a string was an
-   unterminated literal for Python and for Layout: the defect this theorem exposed, repaired in /repo,
-   see C02_layout_examples); they hold for every program over the code page *)
+(* every tree the parser returns satisfies the token side condition: any source, any dictionary *)
+Theorem C02_parsed_tree_ok : forall undict src l, parse_source src = Ok l -> Forall (tree_ok (QT undict)) l.
+Proof. exact parsed_tree_ok. Qed.
+Print Assumptions C02_parsed_tree_ok.
+
+(* end to end, for ALL program texts and ANY dictionary function: what the transpiler emits is
+   accepted by Coq's reading of Python's block structure and context conditions.  The only
+   hypothesis beyond "it parses and transpiles" is `wconds`, which excludes the recorded defect
+   class (early exit in a while condition; C02_nonvacuous / C02_layout_examples show it is really
+   rejected).  An earlier form needed "no carriage return in the source / from the dictionary": a raw
+   CR in a string was an unterminated literal for CPython and for Layout -- the defect this theorem
+   exposed; the transpiler now escapes it (/repo 54dfdca) and the hypotheses are gone.  A CR written
+   directly after a backslash is passed through as a pair: a line continuation inside the literal
+   for CPython, an escape pair for Layout (C02_layout_examples, last part) *)
 Theorem C02_text_accepted : forall undict src l text,
-  undict_no_cr undict -> mem 13 src = false ->
   parse_source src = Ok l -> forallb wconds l = true ->
   transpile_ast undict l = TOk text -> accepts text = true.
 Proof. exact text_accepted. Qed.
 Print Assumptions C02_text_accepted.
 
 Theorem C02_text_accepted_nodict : forall src text,
-  mem 13 src = false -> (exists l, parse_source src = Ok l /\ forallb wconds l = true) ->
+  (exists l, parse_source src = Ok l /\ forallb wconds l = true) ->
   transpile_nodict src = OText text -> accepts text = true.
 Proof. exact text_accepted_nodict. Qed.
 Print Assumptions C02_text_accepted_nodict.
 
-Theorem C02_codepage_has_no_cr : mem 13 Gen.Codepage.codepage = false.
-Proof. exact codepage_no_cr. Qed.
-Print Assumptions C02_codepage_has_no_cr.
-
 (* non-vacuity: a program with a for loop, a three-branch if, a string spanning two physical
    lines, a lambda, nested list literals, modifiers, a function definition and call, a while loop
    satisfies every premise and is accepted; {X|1} is rejected; a string holding a carriage return is
-   accepted (the transpiler escapes it) *)
+   accepted (the transpiler escapes it); 3(`a\<CR>b`) -- backslash + CR inside a loop -- is accepted,
+   and so is the text the implementation emits for it (textwrap.indent puts the indentation after
+   the CR, inside the literal, where Model/Transpile.v does not split: the one place where the text
+   model is knowingly inexact); a raw CR inside a literal is rejected *)
 Theorem C02_layout_examples :
   (exists l text,
      parse_source demo_layout_src = Ok l /\ forallb wconds l = true /\ mem 13 demo_layout_src = false /\
      transpile_ast (fun s => s) l = TOk text /\ layout text = Some (shape_program l) /\ accepts text = true)
   /\ accepts_source [123;88;124;49;125] = Some false
   /\ (exists l text, parse_source [96;13;96] = Ok l /\ forallb wconds l = true /\
-                     transpile_ast (fun s => s) l = TOk text /\ accepts text = true).
-Proof. exact (conj layout_nonvacuous (conj layout_rejects_known_bad layout_cr_escaped)). Qed.
+                     transpile_ast (fun s => s) l = TOk text /\ accepts text = true)
+  /\ ((exists l text, parse_source [51;40;96;97;92;13;98;96;41] = Ok l /\ transpile_ast (fun s => s) l = TOk text /\
+                       mem 13 text = true /\ accepts text = true)
+      /\ accepts (L "if x:" ++ [nl] ++ L "    stack.append(""a\" ++ [13] ++ L "    b"")" ++ [nl]) = true)
+  /\ accepts (L "stack.append(""a" ++ [13] ++ L "b"")" ++ [nl]) = false.
+Proof.
+  exact (conj layout_nonvacuous (conj layout_rejects_known_bad (conj layout_cr_escaped
+           (conj layout_backslash_cr layout_raw_cr_rejected)))).
+Qed.
 Print Assumptions C02_layout_examples.
